@@ -279,6 +279,8 @@ struct SSCfg {
     std::string sysIdStyle;          // "" | "noslash": a stylesheet that includes through a ../ href (used with an unusual base URI)
     bool dupExtPrefix = false;       // extension-element-prefixes lists two prefixes bound to one namespace URI
     std::string sortLang = "de", sortCase;   // "sortlang" feature: lang and case-order ("" = absent)
+    int indentAmount = -1;           // >= 0: indent="yes"/"no" with xalan:indent-amount (where outputs are compared byte for byte only)
+    std::string stripNames;          // "" = strip-space elements="*"; otherwise the names to strip (with stripSpace)
     int keyVariant = 0;              // "key-prefixed" / "key-variant": which namespace the key prefixes are bound to and what the keys use (0..2)
     std::string rootName = "out";    // with method "" (no method attribute) and rootName "html" the processor switches to the HTML serializer after the first element
 };
@@ -492,15 +494,16 @@ struct SSGen {
             s += "<xsl:import href=\"imp1.xsl\"/>\n";
             out.resources["imp1.xsl"] = "<?xml version=\"1.0\"?><xsl:stylesheet version=\"1.0\" xmlns:xsl=\"http://www.w3.org/1999/XSL/Transform\"><xsl:template match=\"*\" mode=\"imp\">imp:<xsl:value-of select=\"@id\"/></xsl:template><xsl:template match=\"*[@k='k1']\" mode=\"imp\" priority=\"3\">impk1:<xsl:value-of select=\"@id\"/></xsl:template><xsl:variable name=\"IMPV\" select=\"'from-import'\"/></xsl:stylesheet>";
         }
-        s += "<xsl:output" + (c.method.empty() ? std::string() : " method=\"" + c.method + "\"") + " encoding=\"" + (c.abortKind == "encoding" ? std::string("x-no-such-enc") : c.encoding) + "\" indent=\"no\"";
+        s += "<xsl:output" + (c.method.empty() ? std::string() : " method=\"" + c.method + "\"") + " encoding=\"" + (c.abortKind == "encoding" ? std::string("x-no-such-enc") : c.encoding) + "\"" + (c.indentAmount >= 0 ? std::string() : std::string(" indent=\"no\""));
         if (c.omitDecl) s += " omit-xml-declaration=\"yes\"";
+        if (c.indentAmount >= 0) s += std::string(" indent=\"") + (c.indentAmount % 2 ? "yes" : "no") + "\" xalan:indent-amount=\"" + std::to_string(c.indentAmount) + "\"";
         if (c.cdataElems) s += " cdata-section-elements=\"cd\"";
         s += "/>\n";
         if (c.useInclude) {
             s += std::string("<xsl:include href=\"") + (c.sysIdStyle == "noslash" ? "../inc1.xsl" : "inc1.xsl") + "\"/>\n";
             out.resources["inc1.xsl"] = "<?xml version=\"1.0\"?><xsl:stylesheet version=\"1.0\" xmlns:xsl=\"http://www.w3.org/1999/XSL/Transform\"><xsl:template name=\"incT\"><xsl:param name=\"x\"/>inc[<xsl:value-of select=\"$x\"/>]</xsl:template></xsl:stylesheet>";
         }
-        if (c.stripSpace) s += "<xsl:strip-space elements=\"*\"/><xsl:preserve-space elements=\"p item\"/>\n";
+        if (c.stripSpace) s += c.stripNames.empty() ? std::string("<xsl:strip-space elements=\"*\"/><xsl:preserve-space elements=\"p item\"/>\n") : "<xsl:strip-space elements=\"" + c.stripNames + "\"/>\n";
         if (c.useParam || c.on.count("param") || c.on.count("paramuse") || c.on.count("gate") || c.on.count("num-gate") || c.on.count("sort-gate")) s += "<xsl:param name=\"P1\" select=\"'dflt'\"/><xsl:param name=\"P2\" select=\"40\"/>\n";
         s += "<xsl:variable name=\"G1\" select=\"count(//*)\"/><xsl:variable name=\"GP\" select=\"concat(position(), '/', last())\"/>\n";
         if (c.on.count("gate") || c.on.count("num-gate")) s += "<xsl:variable name=\"GATE\"><xsl:if test=\"$P1 = 'abort'\"><xsl:message terminate=\"yes\">gate closed</xsl:message></xsl:if><xsl:if test=\"$P1 = 'badkey'\"><xsl:value-of select=\"count(key('nosuchkey', 1))\"/></xsl:if>open</xsl:variable>\n";
